@@ -1,13 +1,368 @@
-import Uflow.Model.Endpoint
+import Uflow.Lemmas.EndpointEventsExamples
 
-/-! # C10 (theorems on the endpoint model are being added) -/
+/-!
+# C10 — timeouts
+
+Model: `Uflow.Endpoint` (`Uflow/Model/Endpoint.lean`); every theorem holds for every half connection
+`hc : HC H`. Helper lemmas: `Uflow/Lemmas/EndpointClient*.lean`, `Uflow/Lemmas/EndpointEvents*.lean`.
+
+Vocabulary (lemma files): `c.nowMs nowNs = (nowNs - c.timeBase) / 10^6` (the clock of `Client.step`);
+`hasTraffic arrivals` / `hasDisc arrivals`: some datagram (truncated to 1472 bytes) decodes to a
+data/sync/ack frame / to a disconnect request; `c.deadlineAfter nowMs t arrivals =
+if hasTraffic arrivals then nowMs + activeTimeoutMs else t`; `c.expired nowMs`: a timer of the state has
+run out; `estScan ln arrivals`: `none` until the first SYN-ACK echoing `ln`, then `some tr` with `tr` =
+"a data/sync/ack frame followed"; `c.estDeadline nowMs tr = if tr then nowMs + activeTimeoutMs else
+activeTimeoutMs`; `Client.touch`, `Client.deadlineOf`, `Client.TInv`, `Client.runG`: the ghost "clock of
+the last step that processed a data/sync/ack frame since the connection was established".
+
+**Finding (F9, client).** The client initialises the activity deadline of a fresh connection to
+`activeTimeoutMs` — an absolute clock value — instead of `now + activeTimeoutMs`. Hence
+`C10_timeout_sound_client` is FALSE in its full form (`C10_timeout_sound_client_witness`); what holds is
+`C10_timeout_sound_client_partial`.
+-/
 
 namespace Uflow.Props.C10
 
-open Uflow.Endpoint
+open Uflow.Endpoint Uflow.Codec Uflow.Gen Uflow.HalfConn
+
+variable {H : Type}
 
 /-- `u32` (the model of `.min(u32::MAX as usize) as u32`) fits 32 bits. -/
 theorem C10_u32_lt (x : Nat) : u32 x < 2^32 := by
   unfold u32; omega
+
+/-! ## Client: activity timeout -/
+
+/-
+FULL STATEMENT (false for the model, see the witness below):
+`C10_timeout_sound_client`: `CEvent.error .timeout` from `active` is emitted only if
+`nowMs ≥ timeoutTimeMs`, and `timeoutTimeMs = (time of the step that last processed a data/ack/sync
+frame or established the connection) + activeTimeoutMs`.
+-/
+
+/-- `C10_timeout_sound_client_witness`: the full statement is FALSE. A client (timeBase 0,
+`activeTimeoutMs = 15000`) whose handshake completes in a step at clock 20000 ms delivers `connect` and,
+in the very same step, `error timeout` — although the SYN-ACK was just processed and
+"time of establishment + activeTimeoutMs" is 35000 > 20000. -/
+theorem C10_timeout_sound_client_witness :
+    ∃ c' sent, exClient.step trivHC 20000000000 [exSynAck] = .ok (c', sent, [CEvent.connect, CEvent.error .timeout]) ∧
+      decodesTo exSynAck (.synAck 7 9 500000 10000 100000) ∧
+      (∃ req rt rc sends, exClient.state = .pending 7 req rt rc sends) ∧
+      exClient.nowMs 20000000000 = 20000 ∧ exClient.ep.activeTimeoutMs = 15000 ∧
+      exClient.nowMs 20000000000 < exClient.nowMs 20000000000 + exClient.ep.activeTimeoutMs := by
+  obtain ⟨⟨c', sent, evs⟩, h, hp⟩ := okAnd_elim (r := exClient.step trivHC 20000000000 [exSynAck])
+    (p := fun r => decide (r.2.2 = [CEvent.connect, CEvent.error .timeout])) (by decide +kernel)
+  simp only [decide_eq_true_eq] at hp
+  subst hp
+  exact ⟨c', sent, h, by unfold decodesTo; decide +kernel, ⟨_, _, _, _, rfl⟩, by decide +kernel, rfl, by decide +kernel⟩
+
+/-- Step-level soundness relative to the stored deadline (true): a step that starts `active` (deadline
+`t`) and delivers `error timeout` did so because the clock of the step had reached the deadline as
+refreshed by the arrivals of this step (`now + activeTimeoutMs` if a data/sync/ack frame arrived, else
+`t`); no disconnect request arrived, the timeout is the only event of the step and the client is `fin`. -/
+theorem C10_timeout_sound_client_step (hc : HC H) (c c' : Client H) (nowNs : Nat) (arrivals sent : List (List Nat))
+    (evs : List CEvent) (ln : Nat) (hh : H) (t : Nat) (sig : Option DisconnectMode)
+    (hs : c.state = .active ln hh t sig) (he : c.eventsOut = [])
+    (h : c.step hc nowNs arrivals = .ok (c', sent, evs)) (hm : CEvent.error .timeout ∈ evs) :
+    c.nowMs nowNs ≥ c.deadlineAfter (c.nowMs nowNs) t arrivals ∧ hasDisc arrivals = false ∧
+    evs = [CEvent.error .timeout] ∧ c'.state = .fin := by
+  obtain ⟨-, hcase⟩ := Client.step_active hc c c' nowNs arrivals sent evs ln hh t sig hs he h
+  rcases hcase with ⟨h1, h2, h3, h4⟩ | ⟨_, _, _, _, _, _, _, _, _, rfl, _⟩ | ⟨_, _, _, _, _, _, _, _, _, _, rfl⟩ | ⟨_, _, _, rfl⟩
+  · exact ⟨h2, h1, h4, h3⟩
+  · simp at hm
+  · simp at hm
+  · simp at hm
+
+/-- How a step writes the deadline: a step from `active` that stays `active` ends with deadline
+`deadlineAfter` (refreshed to `now + activeTimeoutMs` iff a data/sync/ack frame arrived); a step that
+starts `pending` (nonce `ln`) and ends `active` ends with `activeTimeoutMs` — absolute — unless a
+data/sync/ack frame followed the SYN-ACK in the same step (then `now + activeTimeoutMs`). -/
+theorem C10_deadline_step_client (hc : HC H) (c c' : Client H) (nowNs : Nat) (arrivals sent : List (List Nat))
+    (evs : List CEvent) (he : c.eventsOut = []) (h : c.step hc nowNs arrivals = .ok (c', sent, evs))
+    (ln' : Nat) (hh' : H) (t' : Nat) (sig' : Option DisconnectMode) (hs' : c'.state = .active ln' hh' t' sig') :
+    (∀ ln hh t sig, c.state = .active ln hh t sig → t' = c.deadlineAfter (c.nowMs nowNs) t arrivals) ∧
+    (∀ ln req rt rc sends, c.state = .pending ln req rt rc sends →
+      ∃ tr, estScan ln arrivals = some tr ∧ t' = c.estDeadline (c.nowMs nowNs) tr) := by
+  constructor
+  · intro ln hh t sig hs
+    obtain ⟨-, hcase⟩ := Client.step_active hc c c' nowNs arrivals sent evs ln hh t sig hs he h
+    rcases hcase with ⟨_, _, hx, _⟩ | ⟨_, _, _, _, _, _, _, _, hx, _⟩ | ⟨_, _, _, _, _, _, _, _, _, hx, _⟩ | ⟨_, hx, _⟩
+    · rw [hx] at hs'; cases hs'
+    · rw [hx] at hs'; cases hs'
+    · rw [hx] at hs'; cases hs'; rfl
+    · exact absurd hs' (CState.terminal_not_active hx _ _ _ _)
+  · intro ln req rt rc sends hs
+    exact Client.step_pending_deadline hc c c' nowNs arrivals sent evs ln req rt rc sends hs h ln' hh' t' sig' hs'
+
+/-- `C10_timeout_sound_client_partial` (the invariant that does hold): in every run from
+`Client.connect`, whenever the client is `active`, its deadline is
+`(clock of the step that last processed a data/ack/sync frame) + activeTimeoutMs`, OR no such frame has
+been processed since the connection was established and the deadline is `activeTimeoutMs`. The ghost
+`g'` is computed along the run by `Client.touch`. -/
+theorem C10_timeout_sound_client_partial (hc : HC H) (ep : EpConfig) (now : Nat) (rng : Rng) (ops : List COp)
+    (g0 : Option Nat) (c' : Client H) (g' : Option Nat)
+    (h : Client.runG hc (Client.connect ep now rng).1 g0 ops = .ok (c', g')) :
+    ∀ ln hh t sig, c'.state = .active ln hh t sig →
+      (∃ g1, g' = some g1 ∧ t = g1 + c'.ep.activeTimeoutMs) ∨ (g' = none ∧ t = c'.ep.activeTimeoutMs) := by
+  intro ln hh t sig hs
+  have := (Client.runG_TInv hc ops _ c' g0 g' h rfl (by intro _ _ _ _ hs; cases hs)).1 ln hh t sig hs
+  cases g' with
+  | none => exact Or.inr ⟨rfl, this⟩
+  | some g1 => exact Or.inl ⟨g1, rfl, this⟩
+
+/-- … hence the timeout is sound for every connection that has processed at least one data/sync/ack
+frame: `error timeout` from `active` is delivered only when the clock of the step is at least
+`activeTimeoutMs` past the last such frame (the frames of the timing-out step included); for a
+connection that has processed none, only when the clock has reached the absolute value
+`activeTimeoutMs`. -/
+theorem C10_timeout_sound_client_partial_sound (hc : HC H) (c c' : Client H) (g : Option Nat) (nowNs : Nat)
+    (arrivals sent : List (List Nat)) (evs : List CEvent) (ln : Nat) (hh : H) (t : Nat) (sig : Option DisconnectMode)
+    (hs : c.state = .active ln hh t sig) (he : c.eventsOut = []) (hi : c.TInv g)
+    (h : c.step hc nowNs arrivals = .ok (c', sent, evs)) (hm : CEvent.error .timeout ∈ evs) :
+    c.nowMs nowNs ≥ c.deadlineOf (c.touch g (.step nowNs arrivals)) ∧
+    (∀ g1, c.touch g (.step nowNs arrivals) = some g1 → c.nowMs nowNs ≥ g1 + c.ep.activeTimeoutMs) := by
+  obtain ⟨h1, -⟩ := C10_timeout_sound_client_step hc c c' nowNs arrivals sent evs ln hh t sig hs he h hm
+  have ht := hi _ _ _ _ hs
+  have key : c.nowMs nowNs ≥ c.deadlineOf (c.touch g (.step nowNs arrivals)) := by
+    unfold Client.deadlineAfter at h1
+    simp only [Client.touch, hs]
+    cases htr : hasTraffic arrivals with
+    | false =>
+      rw [htr] at h1
+      have h1' : c.nowMs nowNs ≥ t := h1
+      show c.nowMs nowNs ≥ c.deadlineOf g
+      rw [← ht]; exact h1'
+    | true =>
+      rw [htr] at h1
+      exact h1
+  refine ⟨key, fun g1 hg => ?_⟩
+  rw [hg] at key
+  exact key
+
+/-- Every `error timeout` of a step (from whatever state) comes from `handle_events` finding a timer of
+the post-arrival state run out. -/
+theorem C10_timeout_origin_client (hc : HC H) (c c' : Client H) (nowNs : Nat) (arrivals sent : List (List Nat))
+    (evs : List CEvent) (he : c.eventsOut = []) (h : c.step hc nowNs arrivals = .ok (c', sent, evs))
+    (hm : CEvent.error .timeout ∈ evs) :
+    ∃ c1 s1 c2 s2, c.flush hc = .ok (c1, s1) ∧ c1.arrivalsPhase hc (c.nowMs nowNs) nowNs arrivals = .ok (c2, s2) ∧
+      c2.expired (c.nowMs nowNs) := by
+  rcases Client.step_timeout_origin hc c c' nowNs arrivals sent evs h hm with hx | hx
+  · rw [he] at hx; cases hx
+  · exact hx
+
+/-- `C10_timeout_prompt` (client): if after processing the arrivals of a step the state is `active` with
+`nowMs ≥ timeoutTimeMs` (more generally: any timer of the state has run out), that same step delivers
+`error timeout` right after the events of the arrivals and leaves the state (`fin`). -/
+theorem C10_timeout_prompt_client (hc : HC H) (c c1 c2 : Client H) (nowNs : Nat) (arrivals s1 s2 : List (List Nat))
+    (h1 : c.flush hc = .ok (c1, s1))
+    (h2 : c1.arrivalsPhase hc (c.nowMs nowNs) nowNs arrivals = .ok (c2, s2))
+    (hx : c2.expired (c.nowMs nowNs)) :
+    c.step hc nowNs arrivals =
+      .ok ({ c2 with eventsOut := [], state := .fin }, s1 ++ s2, c2.eventsOut ++ [CEvent.error .timeout]) :=
+  Client.step_timeout_prompt hc c c1 c2 nowNs arrivals s1 s2 h1 h2 hx
+
+/-- `C10_timeout_prompt`, stated on the inputs only: a successful step from `active` in which no
+disconnect request arrives and whose clock has reached the (refreshed) deadline delivers exactly
+`error timeout` and ends in `fin`. -/
+theorem C10_timeout_prompt_client' (hc : HC H) (c c' : Client H) (nowNs : Nat) (arrivals sent : List (List Nat))
+    (evs : List CEvent) (ln : Nat) (hh : H) (t : Nat) (sig : Option DisconnectMode)
+    (hs : c.state = .active ln hh t sig) (he : c.eventsOut = [])
+    (h : c.step hc nowNs arrivals = .ok (c', sent, evs))
+    (hnd : hasDisc arrivals = false) (hge : c.nowMs nowNs ≥ c.deadlineAfter (c.nowMs nowNs) t arrivals) :
+    evs = [CEvent.error .timeout] ∧ c'.state = .fin := by
+  obtain ⟨-, hcase⟩ := Client.step_active hc c c' nowNs arrivals sent evs ln hh t sig hs he h
+  rcases hcase with ⟨_, _, h3, h4⟩ | ⟨_, hlt, _⟩ | ⟨_, hlt, _⟩ | ⟨hd, _⟩
+  · exact ⟨h4, h3⟩
+  · omega
+  · omega
+  · rw [hnd] at hd; cases hd
+
+/-! ## Client: handshake budget -/
+
+/-- `C10_handshake_budget`: in any run of a client created by `Client.connect` (at `now`, sending the
+SYN `req` once) in which no `connect` is delivered, everything sent afterwards is `k ≤ 10` more copies
+of the SYN and nothing else; if `error timeout` is delivered then `k = 10` exactly (the SYN went out 11
+times), it is the only event, the client is `fin`, and some step of the run had its clock at
+`≥ 22000` ms after `connect` — no monotonicity of the step times is needed, since every resend at clock
+`m ≥ resendTime` moves `resendTime` to `m + 2000`. -/
+theorem C10_handshake_budget (hc : HC H) (ep : EpConfig) (now : Nat) (rng : Rng) (ops : List COp)
+    (c' : Client H) (sent : List (List Nat)) (evs : List CEvent)
+    (h : Client.run hc (Client.connect ep now rng).1 ops = .ok (c', sent, evs))
+    (hnc : CEvent.connect ∉ evs) :
+    ∃ req k, (Client.connect (H := H) ep now rng).2 = [req] ∧ sent = List.replicate k req ∧
+      k ≤ CLIENT_HANDSHAKE_RESEND_COUNT ∧
+      (CEvent.error .timeout ∈ evs →
+        k = CLIENT_HANDSHAKE_RESEND_COUNT ∧ evs = [CEvent.error .timeout] ∧ c'.state = .fin ∧
+        ∃ n a, COp.step n a ∈ ops ∧ (n - now) / 1000000 ≥ 22000) := by
+  obtain ⟨k, hsent, hk, hcase⟩ := Client.run_pending hc ops _ c' sent evs _ _ _ _ _ rfl rfl h hnc
+  refine ⟨_, k, rfl, hsent, hk, fun hm => ?_⟩
+  rcases hcase with ⟨rfl, _⟩ | ⟨⟨e, rfl⟩, _⟩ | ⟨hev, hk', hfin, n, a, hmem, hn⟩
+  · cases hm
+  · simp only [List.mem_singleton] at hm
+    injection hm with hm
+    exact absurd hm.symm (errOfHs_ne_timeout e)
+  · refine ⟨hk', hev, hfin, n, a, hmem, ?_⟩
+    simpa [Client.nowMs, Client.connect, CLIENT_HANDSHAKE_RESEND_INTERVAL_MS, CLIENT_HANDSHAKE_RESEND_COUNT] using hn
+
+/-- General form (any `pending` state, with its current timer and remaining count). -/
+theorem C10_handshake_budget_general (hc : HC H) (ops : List COp) (c c' : Client H) (sent : List (List Nat))
+    (evs : List CEvent) (ln : Nat) (req : List Nat) (rt rc : Nat) (sends : List (List Nat × Nat × SendMode))
+    (hs : c.state = .pending ln req rt rc sends) (he : c.eventsOut = [])
+    (h : Client.run hc c ops = .ok (c', sent, evs)) (hnc : CEvent.connect ∉ evs) :
+    ∃ k, sent = List.replicate k req ∧ k ≤ rc ∧
+      ((evs = [] ∧ ((∃ rt' sends', c'.state = .pending ln req rt' (rc - k) sends' ∧
+          rt' ≥ rt + CLIENT_HANDSHAKE_RESEND_INTERVAL_MS * k) ∨ c'.state = .fin)) ∨
+       ((∃ e, evs = [CEvent.error (errOfHs e)]) ∧ c'.state = .fin) ∨
+       (evs = [CEvent.error .timeout] ∧ k = rc ∧ c'.state = .fin ∧
+          ∃ n a, COp.step n a ∈ ops ∧ c.nowMs n ≥ rt + CLIENT_HANDSHAKE_RESEND_INTERVAL_MS * rc)) :=
+  Client.run_pending hc ops c c' sent evs ln req rt rc sends hs he h hnc
+
+/-! ### Non-vacuity (client) -/
+
+/-- An `active` client whose deadline (15001) has passed at clock 16000: the step delivers the timeout. -/
+example : okAnd (({ exClient with state := .active 7 () 15001 none } : Client Unit).step trivHC 16000000000 [])
+    (fun r => decide (CEvent.error .timeout ∈ r.2.2)) = true := by decide +kernel
+
+/-- A run that stays `active`: established at clock 1 (deadline 15000, ghost `none`), a sync frame at
+clock 5000 (deadline 20000, ghost `some 5000`). -/
+example : okAnd (Client.runG trivHC exClient none [.step 1000000 [exSynAck]])
+    (fun r => match r.1.state with | .active _ _ t _ => t == 15000 && r.2 == none | _ => false) = true := by
+  decide +kernel
+
+example : okAnd (Client.runG trivHC exClient none [.step 1000000 [exSynAck], .step 5000000000 [encode (.sync none none)]])
+    (fun r => match r.1.state with | .active _ _ t _ => t == 5000 + 15000 && r.2 == some 5000 | _ => false) = true := by
+  decide +kernel
+
+/-- Hypotheses of `C10_timeout_sound_client_partial_sound`: an active client satisfying `TInv`. -/
+example : ({ exClient with state := .active 7 () 20000 none } : Client Unit).TInv (some 5000) := by
+  intro ln hh t sig hs; cases hs; rfl
+
+/-- The handshake times out: 10 resends (steps every 2 s), then the timeout at 22 s. -/
+example : okAnd (Client.run trivHC exClient
+      ((List.range 12).map fun i => COp.step ((i + 1) * 2000000000) []))
+    (fun r => decide (r.2.2 = [CEvent.error .timeout] ∧ r.2.1.length = 10)) = true := by decide +kernel
+
+/-- Hypotheses of `C10_timeout_prompt_client`: post-arrival state `active` and expired. -/
+example : ∃ c1 s1 c2 s2, ({ exClient with state := .active 7 () 15001 none } : Client Unit).flush trivHC = .ok (c1, s1) ∧
+    c1.arrivalsPhase trivHC 16000 16000000000 [] = .ok (c2, s2) ∧ c2.expired 16000 :=
+  ⟨_, _, _, _, rfl, rfl, by simp [Client.expired]⟩
+
+
+/-! ## Server
+
+Vocabulary (`Uflow/Lemmas/EndpointEvents*.lean`): `s.nowMs nowNs` the clock of a step;
+`s2.afterTimers nowMs` the state after the timer loop (`s2` being the state after flush and arrivals);
+`Server.touchFrame`, `Server.framesGhost`, `Server.stepGhost`, `Server.touch`, `Server.runG`: the ghost
+"per address, the clock of the step that last processed a data/sync/ack frame of, or established, the
+connection of that address"; `Server.DInv s g`: the deadline of every `active` entry of the map is
+`g address + activeTimeoutMs`. The server initialises the deadline correctly (`now + activeTimeoutMs`),
+so the property holds at full strength. -/
+
+/-- `handleTraffic` on an `active` entry sets its deadline to `nowMs + activeTimeoutMs`; on anything else
+it is the identity. -/
+theorem C10_deadline_handleTraffic_server (hc : HC H) (s s' : Server H) (hw : s.WF) (addr : Nat) (f : Frame) (nowMs : Nat)
+    (h : s.handleTraffic hc addr f nowMs = .ok s') :
+    (s' = s ∧ ∀ c hh t sig, s.find addr = some c → c.state ≠ .active hh t sig) ∨
+    ∃ c hh t sig h', s.find addr = some c ∧ c.state = .active hh t sig ∧ hc.dispatch hh f = .ok h' ∧
+      s'.find addr = some { c with state := .active h' (nowMs + s.cfg.ep.activeTimeoutMs) sig } ∧
+      ∀ a, a ≠ addr → s'.find a = s.find a :=
+  Server.handleTraffic_deadline hc s s' hw addr f nowMs h
+
+/-- The handshake-completing ACK initialises the deadline to `nowMs + activeTimeoutMs`. -/
+theorem C10_deadline_handleHsAck_server (hc : HC H) (s : Server H) (hw : s.WF) (addr na nowMs nowNs : Nat)
+    (c : RClient H) (ln rn r al : Nat) (rb : List Nat) (hf : s.find addr = some c)
+    (hst : c.state = .pending ln rn r al rb) (hna : na = ln) :
+    (s.handleHsAck hc addr na nowMs nowNs).find addr =
+      some { c with state := .active (hc.new (hcConfig s.cfg.ep ln rn r al) nowNs) (nowMs + s.cfg.ep.activeTimeoutMs) none } ∧
+    (s.handleHsAck hc addr na nowMs nowNs).eventsOut = s.eventsOut ++ [SEvent.connect addr] ∧
+    ∀ a, a ≠ addr → (s.handleHsAck hc addr na nowMs nowNs).find a = s.find a :=
+  Server.handleHsAck_deadline hc s hw addr na nowMs nowNs c ln rn r al rb hf hst hna
+
+/-- The deadline invariant: in every run from `Server.init`, the deadline of every `active` entry is
+`(clock of the step that last processed a data/sync/ack frame of, or established, its connection)
++ activeTimeoutMs`. The ghost `g'` is computed along the run by `Server.touch` (per frame:
+`Server.touchFrame`). -/
+theorem C10_deadline_invariant_server (hc : HC H) (cfg : SrvConfig) (now : Nat) (rng : Rng) (ops : List SOp)
+    (g0 : Nat → Nat) (s' : Server H) (g' : Nat → Nat)
+    (h : Server.runG hc (Server.init cfg now rng) g0 ops = .ok (s', g')) :
+    ∀ a c hh t sig, s'.find a = some c → c.state = .active hh t sig → t = g' a + s'.cfg.ep.activeTimeoutMs :=
+  (Server.runG_DInv hc ops _ s' g0 g' h (Server.WF.init cfg now rng) rfl
+    (by intro a c hh t sig hf; simp [Server.init, Server.find] at hf)).1
+
+/-- `C10_timeout_sound_server` (full strength): every `error a timeout` delivered by a step from a
+well-formed state satisfying the deadline invariant (i.e. any reachable state) was emitted either by the
+timer loop (retry budget of a `pending` handshake or of a `closing` entry exhausted; the timer loop
+emits nothing else), or by the active-timeout loop for an entry that was `active` after the arrivals and
+timers of this step — and then the clock of the step is at least `activeTimeoutMs` past the clock of the
+step that last processed a data/sync/ack frame of, or established, that connection (the frames of this
+very step included: `stepGhost`). -/
+theorem C10_timeout_sound_server (hc : HC H) (s s' : Server H) (hw : s.WF) (he : s.eventsOut = []) (g : Nat → Nat)
+    (hi : s.DInv g) (nowNs : Nat) (arrivals sent : List (Nat × List Nat)) (evs : List SEvent)
+    (h : s.step hc nowNs arrivals = .ok (s', sent, evs)) (a : Nat) (hm : SEvent.error a .timeout ∈ evs) :
+    ∃ s1 o1 s2 o2, s.flushActive hc = .ok (s1, o1) ∧ s1.handleFrames hc arrivals (s.nowMs nowNs) nowNs = .ok (s2, o2) ∧
+      ((∃ e3, (s2.afterTimers (s.nowMs nowNs)).eventsOut = s2.eventsOut ++ e3 ∧ SEvent.error a .timeout ∈ e3 ∧
+          ∀ e ∈ e3, ∃ a', e = SEvent.error a' .timeout) ∨
+       (∃ c hh t sig, (s2.afterTimers (s.nowMs nowNs)).find a = some c ∧ c.state = .active hh t sig ∧
+          s.nowMs nowNs ≥ t ∧ t = s.stepGhost hc nowNs arrivals g a + s.cfg.ep.activeTimeoutMs)) := by
+  obtain ⟨s1, o1, s2, o2, h1, h2, hcase⟩ := Server.step_timeout_origin hc s s' hw he nowNs arrivals sent evs h a hm
+  refine ⟨s1, o1, s2, o2, h1, h2, ?_⟩
+  rcases hcase with hx | ⟨c, hh, t, sig, hf, hst, hge⟩
+  · exact Or.inl hx
+  · obtain ⟨hi3, hcfg⟩ := Server.afterTimers_DInv hc s hw nowNs arrivals s1 o1 s2 o2 h1 h2 g hi
+    have := hi3 a c hh t sig hf hst
+    rw [hcfg] at this
+    exact Or.inr ⟨c, hh, t, sig, hf, hst, hge, this⟩
+
+/-- Loop level: every `error a timeout` emitted by the active-timeout loop belongs to an entry that was
+`active` in the map when the loop started, with `nowMs ≥` its deadline; the entry is gone afterwards;
+the loop emits nothing but `receive`s and these errors. -/
+theorem C10_timeout_sound_server_loop (hc : HC H) (s s' : Server H) (hw : s.WF) (nowMs : Nat)
+    (h : s.activeTimeouts hc nowMs = .ok s') :
+    ∃ evs, s'.eventsOut = s.eventsOut ++ evs ∧
+      (∀ e ∈ evs, (∃ a d, e = SEvent.receive a d) ∨ ∃ a, e = SEvent.error a .timeout) ∧
+      ∀ a, SEvent.error a .timeout ∈ evs →
+        ∃ c hh t sig, s.find a = some c ∧ c.state = .active hh t sig ∧ nowMs ≥ t ∧ s'.find a = none :=
+  Server.activeTimeouts_sound hc s s' hw nowMs h
+
+/-- `C10_timeout_prompt` (server): an entry that is `active` in the map after the arrivals and timers of a
+step, with `nowMs ≥ timeoutTimeMs`, gets its `error timeout` in that same step (and, loop level, is
+removed from the map by the active-timeout loop). -/
+theorem C10_timeout_prompt_server (hc : HC H) (s s' : Server H) (hw : s.WF) (nowNs : Nat)
+    (arrivals sent : List (Nat × List Nat)) (evs : List SEvent)
+    (h : s.step hc nowNs arrivals = .ok (s', sent, evs))
+    (s1 : Server H) (o1 : List (Nat × List Nat)) (s2 : Server H) (o2 : List (Nat × List Nat))
+    (h1 : s.flushActive hc = .ok (s1, o1)) (h2 : s1.handleFrames hc arrivals (s.nowMs nowNs) nowNs = .ok (s2, o2))
+    (c : RClient H) (hcm : c ∈ (s2.afterTimers (s.nowMs nowNs)).clients) (hh : H) (t : Nat)
+    (sig : Option DisconnectMode) (hst : c.state = .active hh t sig) (hge : s.nowMs nowNs ≥ t) :
+    SEvent.error c.address .timeout ∈ evs :=
+  Server.step_timeout_prompt hc s s' hw nowNs arrivals sent evs h s1 o1 s2 o2 h1 h2 c hcm hh t sig hst hge
+
+theorem C10_timeout_prompt_server_loop (hc : HC H) (s s' : Server H) (hw : s.WF) (nowMs : Nat) (c : RClient H)
+    (hcm : c ∈ s.clients) (hh : H) (t : Nat) (sig : Option DisconnectMode) (hst : c.state = .active hh t sig)
+    (hge : nowMs ≥ t) (h : s.activeTimeouts hc nowMs = .ok s') :
+    ∃ evs, s'.eventsOut = s.eventsOut ++ evs ∧ SEvent.error c.address .timeout ∈ evs ∧ s'.find c.address = none :=
+  Server.activeTimeouts_prompt hc s s' hw nowMs c hcm hh t sig hst hge h
+
+/-! ### Non-vacuity (server) -/
+
+/-- An established connection of address 5 (at clock 2) times out in the step at clock 15002 and not in
+the one at clock 15001. -/
+example : okAnd (Server.run trivHC exServer
+      [.step 1000000 [(5, exSyn)], .step 2000000 [(5, exHsAck)], .step 15001000000 [], .step 15002000000 []])
+    (fun r => decide (r.2.2 = [SLabel.ev (.connect 5), .ev (.error 5 .timeout)])) = true := by decide +kernel
+
+example : okAnd (Server.run trivHC exServer
+      [.step 1000000 [(5, exSyn)], .step 2000000 [(5, exHsAck)], .step 15001000000 []])
+    (fun r => decide (r.2.2 = [SLabel.ev (.connect 5)])) = true := by decide +kernel
+
+/-- The ghost run is defined and records the clock of the establishing step / of the last sync frame. -/
+example : okAnd (Server.runG trivHC exServer (fun _ => 0)
+      [.step 1000000 [(5, exSyn)], .step 2000000 [(5, exHsAck)], .step 7000000 [(5, encode (.sync none none))]])
+    (fun r => r.2 5 == 7 && r.2 6 == 0) = true := by decide +kernel
+
+/-- Hypotheses of `C10_timeout_sound_server`: the initial state is well-formed, has an empty buffer and
+satisfies the invariant. -/
+example : exServer.WF ∧ exServer.eventsOut = [] ∧ exServer.DInv (fun _ => 0) :=
+  ⟨Server.WF.init _ _ _, rfl, by intro a c hh t sig hf; simp [exServer, Server.init, Server.find] at hf⟩
 
 end Uflow.Props.C10
